@@ -134,6 +134,30 @@ theorem sort_reverse_clear (le : α → α → Bool) (rev : Bool) (s : ISet α) 
       s.clear.toList = [] :=
   ⟨(sort_spec le rev s h).2, (reverse_spec s h).2, rfl⟩
 
+/-- `sort(key=…, reverse=…)` with any comparison `lek`; `bad` = the items whose comparison raises.
+    A sort that raises (a live item of `bad` and at least two items) reports the error and leaves
+    the set exactly as it was - same structures, hence the same iteration, `s[i]`, `index`, ... as
+    before, all still those of ONE list; a sort that does not raise is the stable sort of the list. -/
+theorem sort_failure_atomic (cfg : Cfg) (le lek : α → α → Bool) (rev : Bool) (bad : List α) (s : ISet α)
+    (h : Inv s) :
+    ((2 ≤ s.toList.length ∧ ∃ x ∈ s.toList, x ∈ bad) →
+        step cfg le s (.sortBy lek rev bad) = (s, .err .cmpError)) ∧
+    (¬ (2 ≤ s.toList.length ∧ ∃ x ∈ s.toList, x ∈ bad) →
+        (step cfg le s (.sortBy lek rev bad)).2 = .unit ∧ Inv (step cfg le s (.sortBy lek rev bad)).1 ∧
+        (step cfg le s (.sortBy lek rev bad)).1.toList = ISet.sortedList lek rev s.toList) := by
+  have hc : s.sortRaises bad = true ↔ (2 ≤ s.toList.length ∧ ∃ x ∈ s.toList, x ∈ bad) := by
+    simp [ISet.sortRaises, h.toInvC.len_eq]
+  constructor
+  · intro hb
+    simp [step, ISet.sortBy, hc.2 hb]
+  · intro hb
+    have hb' : s.sortRaises bad = false := by
+      cases hs : s.sortRaises bad
+      · rfl
+      · exact absurd (hc.1 hs) hb
+    have := sort_spec lek rev s h
+    simp [step, ISet.sortBy, hb', this.1, this.2]
+
 /-! ### the set view: results contain exactly what Python sets would, ordered by first appearance -/
 
 /-- union (any number of operands; also `update`, `|`, `|=`): the receiver's items in order, then
@@ -192,6 +216,37 @@ theorem rsub_exact (s : ISet α) (h : Inv s) (o : Operand α) :
     ∀ x, x ∈ s.rsub o ↔ x ∈ opItems s.toList o ∧ x ∉ s.toList := by
   intro x; rw [rsub_spec s h o]; simp
 
+/-! ### several sets at once: results and IndexedSet operands are sets of their own -/
+
+/-- the receiver alone in register 0 -/
+abbrev mstart (init : List α) : Mach α := ⟨[start init], 0⟩
+abbrev mstartSpec (init : List α) : SMach α := ⟨[dedup init], 0⟩
+
+/-- **refinement for any number of sets**: in every valid history over a register file - operations
+    on whichever set is selected, results of union / intersection / difference / symmetric_difference /
+    slicing kept as further sets and worked on later, operands taken from the other sets - every
+    observation equals that of independent plain lists, one per set. -/
+theorem machine_refines (cfg : Cfg) (le : α → α → Bool) (init : List α) (ops : List (MOp α))
+    (hv : MValidRun le (mstartSpec init) ops) :
+    mrunOuts cfg le (mstart init) ops = Spec.mrunOuts le (mstartSpec init) ops ∧
+      (mrunState cfg le (mstart init) ops).views = (Spec.mrunState le (mstartSpec init) ops).regs ∧
+      (mrunState cfg le (mstart init) ops).cur = (Spec.mrunState le (mstartSpec init) ops).cur := by
+  have h0 : MRel (mstart init) (mstartSpec init) :=
+    ⟨rfl, by simp, by simp [Mach.views, (start_refines init).2], by simp [(start_refines init).1]⟩
+  have := mrun_refines cfg le ops _ _ h0 hv
+  exact ⟨this.1, this.2.views, this.2.cur⟩
+
+/-- every set of the register file satisfies the representation invariant after ANY history -/
+theorem machine_inv (cfg : Cfg) (le : α → α → Bool) (init : List α) (ops : List (MOp α)) :
+    ∀ s ∈ (mrunState cfg le (mstart init) ops).regs, Inv s :=
+  mrunState_inv cfg le ops _ (by simp [(start_refines init).1]) (by simp)
+
+/-- an operation on one set leaves every other set untouched (not only its iteration: its three
+    structures), so nothing done to a result can be seen through the set it came from, or vice versa -/
+theorem other_sets_untouched (cfg : Cfg) (le : α → α → Bool) (m : Mach α) (op : MOp α) (j : Nat)
+    (hj : j < m.regs.length) (hne : j ≠ m.cur) : (mstep cfg le m op).1.regs[j]? = m.regs[j]? :=
+  mstep_frame cfg le m op j hj hne
+
 /-! ### non-vacuity: concrete states and histories that satisfy the hypotheses -/
 
 def natLe (a b : Nat) : Bool := a ≤ b
@@ -214,6 +269,25 @@ example : runOuts cfgReal natLe (start (List.range 40))
 example : ValidRun natLe (dedup (List.range 5))
     [Op.remove 1, .popAt (-2), .get 2, .slice none (some (-1)) (some 2), .symdiff [⟨.coll, [7, 0, 7]⟩]] := by
   simp [ValidRun, ValidOp, pyIndex, Spec.step, dedup, addAll, specAdd, List.range, List.range.loop]
+
+/-- a sort that raises: items 0..5 without 2, the key of item 4 cannot be compared -/
+example : runOuts cfgReal natLe (start (List.range 6))
+      [.remove 2, .sortBy (fun a b => natLe b a) false [4], .iter, .get 2, .index 5]
+    = [.unit, .err .cmpError, .list [0, 1, 3, 4, 5], .item 3, .nat 4] := by decide +kernel
+
+/-- a valid machine history: the union of a set with a dead run is kept, the item after the run is
+    removed from the result, and the receiver still indexes as before (the `fork` builds its operand
+    from register 0's own iteration) -/
+example : mrunOuts cfgReal natLe (mstart (List.range 40))
+      [.run fun _ => .remove 10, .fork fun vs => .union [⟨.iset, (vs[0]?.getD []).take 2 ++ [100]⟩], .sel 1,
+       .run fun _ => .remove 11, .run fun _ => .get 10, .sel 0, .run fun _ => .get 10, .run fun _ => .index 12]
+    = [.unit, .list ((List.range 40).erase 10 ++ [100]), .unit, .unit, .item 12, .unit, .item 11, .nat 11] := by
+  decide +kernel
+
+example : MValidRun natLe (mstartSpec (List.range 4))
+      [.run fun _ => .remove 1, .fork fun vs => .union [⟨.iset, vs[0]?.getD []⟩], .sel 1, .run fun _ => .get (-1)] := by
+  simp [MValidRun, MValidOp, ValidOp, pyIndex, Spec.mstep, Spec.step, SMach.curList, dedup, addAll, specAdd,
+    List.range, List.range.loop, resultList, opItems]
 
 /-- the set algebra on a concrete case: {0,1,2,3} ^ [7,0,7] = [1,2,3,7] -/
 example : (ISet.symdiff (start [0, 1, 2, 3]) [⟨.coll, [7, 0, 7]⟩]).toList = [1, 2, 3, 7] := by decide
